@@ -13,7 +13,9 @@ of being indexed, a lambda becomes a small nested function, a repeated literal b
      the binding, whose expression cannot change value between the binding and the last use (no name of E rebound, nothing E reads
      mutated -- see `_stable`), is replaced by E at its uses and the binding removed; `a, b = f(..)` directly followed by the only use
      `g(a, b)` becomes `g(*f(..))`;
-  4. `for k, v in X.items()` with v new becomes `for k in X` with `X[k]` for v (statement loops and comprehension generators);
+  4. `for k, v in X.items()` with v new becomes `for k in X` with `X[k]` for v (statement loops and comprehension generators); a local that the
+     pinned function binds to a single-generator comprehension and this one starts empty and fills in the loop that follows is put
+     back into the comprehension;
   5. a new module-level name bound once to a literal is replaced by the literal;
   6. the parameters of a lambda are renamed to those of the pinned lambda of the same function with the same body up to parameter names.
 
@@ -602,6 +604,93 @@ def _items_loops(fn, pinned_locals, params):
     return done
 
 
+# ----------------------------------------------------------------------------------------------------------------- step 4b
+def _empty_container(node):
+    if isinstance(node, (ast.List, ast.Set)) and not node.elts:
+        return 'list' if isinstance(node, ast.List) else 'set'
+    if isinstance(node, ast.Dict) and not node.keys:
+        return 'dict'
+    if isinstance(node, ast.Call) and isinstance(node.func, ast.Name) and node.func.id in ('list', 'set', 'dict') and not node.args and not node.keywords:
+        return node.func.id
+    return None
+
+
+def _pinned_spelling(shapes):
+    """'comp' when the pinned function binds the local to a comprehension, 'loop' when it starts it empty and fills it, None otherwise."""
+    comp = any(sh.startswith('Assign: FOCUS_ = ') and ' for ' in sh and sh[len('Assign: FOCUS_ = '):][:1] in '[{' for sh in shapes)
+    empty = any(sh in ('Assign: FOCUS_ = []', 'Assign: FOCUS_ = set()', 'Assign: FOCUS_ = {}', 'Assign: FOCUS_ = list()', 'Assign: FOCUS_ = dict()') for sh in shapes)
+    if comp and not empty:
+        return 'comp'
+    if empty and not comp:
+        return 'loop'
+    return None
+
+
+def _loops_and_comprehensions(fn, pinned_locals):
+    """A local the pinned function builds with a comprehension but this one starts empty and fills in the loop that follows is put back into the
+    comprehension.  (The reverse direction is left to the rules: a pinned loop usually does more than fill the container, so there is no pinned
+    spelling to go back to; the branch is kept, disabled, for reference.)"""
+    done = []
+    for node in list(ast.walk(fn)):
+        for block in _blocks(node):
+            i = 0
+            while i < len(block):
+                st = block[i]
+                if not (isinstance(st, ast.Assign) and len(st.targets) == 1 and isinstance(st.targets[0], ast.Name)):
+                    i += 1
+                    continue
+                name = st.targets[0].id
+                want = _pinned_spelling(pinned_locals.get(name) or [])
+                kind = _empty_container(st.value)
+                if want == 'comp' and kind is not None and i + 1 < len(block) and isinstance(block[i + 1], ast.For) and not block[i + 1].orelse:
+                    loop = block[i + 1]
+                    conds = []
+                    body = loop.body
+                    while len(body) == 1 and isinstance(body[0], ast.If) and not body[0].orelse:
+                        conds.append(body[0].test)
+                        body = body[0].body
+                    fill = body[0] if len(body) == 1 else None
+                    new = None
+                    uses_elsewhere = sum(1 for x in ast.walk(loop) if isinstance(x, ast.Name) and x.id == name)
+                    if isinstance(fill, ast.Expr) and isinstance(fill.value, ast.Call) and isinstance(fill.value.func, ast.Attribute) and fill.value.func.attr in ('append', 'add') \
+                            and isinstance(fill.value.func.value, ast.Name) and fill.value.func.value.id == name and len(fill.value.args) == 1 and uses_elsewhere == 1 \
+                            and ((kind == 'list') == (fill.value.func.attr == 'append')) and kind in ('list', 'set'):
+                        gen = ast.comprehension(target=loop.target, iter=loop.iter, ifs=conds, is_async=0)
+                        new = (ast.ListComp if kind == 'list' else ast.SetComp)(elt=fill.value.args[0], generators=[gen])
+                    elif isinstance(fill, ast.Assign) and len(fill.targets) == 1 and isinstance(fill.targets[0], ast.Subscript) and isinstance(fill.targets[0].value, ast.Name) \
+                            and fill.targets[0].value.id == name and uses_elsewhere == 1 and kind == 'dict':
+                        gen = ast.comprehension(target=loop.target, iter=loop.iter, ifs=conds, is_async=0)
+                        new = ast.DictComp(key=fill.targets[0].slice, value=fill.value, generators=[gen])
+                    if new is not None:
+                        block[i:i + 2] = [ast.fix_missing_locations(ast.copy_location(ast.Assign(targets=[st.targets[0]], value=new, lineno=st.lineno), st))]
+                        done.append('loop->comp:' + name)
+                        continue
+                elif False and want == 'loop' and isinstance(st.value, (ast.ListComp, ast.SetComp, ast.DictComp)) and len(st.value.generators) == 1 \
+                        and not any(isinstance(x, ast.Name) and x.id == name for x in ast.walk(st.value)):
+                    comp = st.value
+                    gen = comp.generators[0]
+                    if isinstance(comp, ast.ListComp):
+                        init = ast.List(elts=[], ctx=ast.Load())
+                        fill = ast.Expr(value=ast.Call(func=ast.Attribute(value=ast.Name(id=name, ctx=ast.Load()), attr='append', ctx=ast.Load()), args=[comp.elt], keywords=[]))
+                    elif isinstance(comp, ast.SetComp):
+                        init = ast.Call(func=ast.Name(id='set', ctx=ast.Load()), args=[], keywords=[])
+                        fill = ast.Expr(value=ast.Call(func=ast.Attribute(value=ast.Name(id=name, ctx=ast.Load()), attr='add', ctx=ast.Load()), args=[comp.elt], keywords=[]))
+                    else:
+                        init = ast.Dict(keys=[], values=[])
+                        fill = ast.Assign(targets=[ast.Subscript(value=ast.Name(id=name, ctx=ast.Load()), slice=comp.key, ctx=ast.Store())], value=comp.value, lineno=st.lineno)
+                    body = [fill]
+                    for cond in reversed(gen.ifs):
+                        body = [ast.If(test=cond, body=body, orelse=[])]
+                    loop = ast.For(target=gen.target, iter=gen.iter, body=body, orelse=[], lineno=st.lineno)
+                    block[i:i + 1] = [ast.fix_missing_locations(ast.copy_location(ast.Assign(targets=[st.targets[0]], value=init, lineno=st.lineno), st)),
+                                      ast.fix_missing_locations(ast.copy_location(loop, st))]
+                    done.append('comp->loop:' + name)
+                    i += 2
+                    continue
+                i += 1
+    return done
+
+
 # ----------------------------------------------------------------------------------------------------------------- step 5
 def _literal(node):
     if isinstance(node, ast.Constant):
@@ -725,6 +814,7 @@ def normalise_module(module):
         done += ['def->lambda:' + n for n in _defs_to_lambdas(fn, pinned_locals)]
         done += _conditional_assignments(fn, pinned_locals, params)
         done += _items_loops(fn, pinned_locals, params)
+        done += _loops_and_comprehensions(fn, pinned_locals)
         done += _unhoist_locals(fn, pinned_locals, params)
         done += _lambda_params(fn, pinned.get('lambdas', {}).get(qual, []))
         if done:
